@@ -253,6 +253,20 @@ pub fn run_c07(out: &mut Out, rng: &mut Rng, tier: Tier) -> String {
             out.count(&format!("step:{}", format!("{:?}", s).split('(').next().unwrap()));
         }
     }
+    // a fixed program on matrices beyond 1024 / 4096 elements
+    for &(nr, nc) in &LARGE[..2] {
+        let prog = vec![Step::New(0, nr, nc, 1), Step::New(1, nr, nc, 500000), Step::Transpose(0), Step::Transpose(0), Step::SwapRows(0, 0, nr - 1), Step::SwapCols(0, 1, nc - 1),
+            Step::Ew(3, 0, 1, "ref", "gen"), Step::Ew(3, 0, 1, "assign", "add"), Step::Eq(0, 1), Step::Overwrite(1, 0), Step::Eq(0, 1), Step::Nth(0, "col_mut", nc - 1), Step::Views(1, "rows")];
+        out.case(&format!("program large {nr}x{nc} world=row-major"));
+        let a = run(out, &prog, false, rng);
+        out.nontrivial();
+        out.case(&format!("program large {nr}x{nc} world=mixed-orders"));
+        let b = run(out, &prog, true, rng);
+        out.nontrivial();
+        for (i, (x, y)) in a.iter().zip(&b).enumerate() {
+            if x != y { out.oracle_fail(&format!("large program {nr}x{nc}, step {i} ({:?}): logical observation differs between the row-major run and the mixed-order run", prog[i])); break; }
+        }
+    }
     // zero-sized element types (the unit type; a zero-sized type with counted construction / destruction)
     twin_anon::<()>(out, rng, n / 5);
     twin_anon::<Zd>(out, rng, n / 5);
